@@ -39,6 +39,8 @@ class Iso:
         w = f"{where} value {a.name!r}"
         if a.name != b.name:
             self.diff(w, f"name {a.name!r} vs {b.name!r}")
+        if not a.name:
+            return   # an omitted (empty-named) optional output has no value-info entry to carry type, shape or metadata
         at, ash = a.type, a.shape
         if a.const_value is not None and a.is_initializer():
             # an initializer value that carries no type/shape of its own acquires its tensor's on deserialization
@@ -239,7 +241,8 @@ class Iso:
 
 
 def _opsets(d):
-    return {("" if k == "ai.onnx" else k): v for k, v in dict(d).items()}
+    # exact: on IR -> proto -> IR an opset import keeps its spelling ('ai.onnx' and '' are different keys of the mapping)
+    return dict(d)
 
 
 def _shape(s):
